@@ -1,11 +1,15 @@
 (* Properties/C04.v — private key -> public key -> address is exact; invalid keys are refused.
    Statements only; proofs are in Proofs/KeyPoint*.v and Proofs/AddrEnc.v.
    lib_* = bitcoinlib as repaired by fixes/C04-1..4 (Model/KeyPoint.v, Model/AddrEnc.v), spec_* = SEC 1 / BIPs.
-   Primality of secp256k1_p is an explicit premise wherever it is used; it is not proved. *)
+   Primality of secp256k1_p is an explicit premise wherever it is used; it is not proved.
+   The network table: Gen/GenNetworks.v is regenerated from /repo on every run; Model/SpecNetworks.v is the FROZEN
+   specification copy (reference clients' chain parameters).  network_table_is_spec ties the two, and the *_frozen
+   theorems state the address property against the frozen version bytes / human-readable parts. *)
 From Coq Require Import ZArith List Bool Znumtheory.
 From Coq.Strings Require Import Byte.
 From Verif Require Import Lib.Bytes Crypto.Secp256k1 Gen.GenConsts Gen.GenKeyConsts Gen.GenNetworks
-  Model.AddrEnc Model.KeyPoint Proofs.KeyPointFermat Proofs.KeyPoint Proofs.KeyPointWitness Proofs.AddrEnc.
+  Model.SpecNetworks Model.AddrEnc Model.KeyPoint Proofs.KeyPointFermat Proofs.KeyPoint Proofs.KeyPointWitness Proofs.AddrEnc
+  Proofs.SpecNetworksGlue Proofs.AddrEncFrozen.
 Import ListNotations.
 Open Scope Z_scope.
 
@@ -86,6 +90,49 @@ Theorem address_p2tr_of_output_key : forall nw q wv,
   lib_address nw (Some StP2tr) (Some EncBech32) wv [] q = spec_p2tr nw q.
 Proof. exact address_p2tr_of_output_key_pf. Qed.
 
+(* ---------------------------------------------------------------- the network table is the frozen specification *)
+
+(* every row of networks.json (as regenerated on this run), projected to the fields the properties depend on, is the
+   row of the frozen specification table at the same position: an edited / added / removed / reordered row breaks this *)
+Theorem network_table_is_spec : map proj_network all_networks = spec_networks.
+Proof. exact gen_networks_are_spec. Qed.
+
+(* the (network, field) pairs in which the two tables differ: none (the failure message of this one names them) *)
+Theorem network_table_diff_empty : table_diff (map proj_network all_networks) spec_networks = [].
+Proof. exact gen_table_diff_empty. Qed.
+
+(* address_is_standard against the frozen table: for the regenerated row nw and the frozen row sn of the same network *)
+Theorem address_is_standard_frozen : forall nw sn st e data addr,
+  In (nw, sn) (combine all_networks spec_networks) ->
+  data <> [] -> hexlike data = false ->
+  hexlike (lib_final_hash nw (Some st) (Some e) 0 data []) = false ->
+  st <> StP2tr ->
+  frozen_address sn st e data = Some addr ->
+  lib_address nw (Some st) (Some e) 0 data [] = Some addr.
+Proof. exact address_is_standard_frozen_pf. Qed.
+
+(* ... and addressed by the network name, as Address(..., network=<name>) is *)
+Theorem address_by_name_is_standard : forall nw st e data addr,
+  In nw all_networks ->
+  data <> [] -> hexlike data = false ->
+  hexlike (lib_final_hash nw (Some st) (Some e) 0 data []) = false ->
+  st <> StP2tr ->
+  frozen_address_by_name (nw_name nw) st e data = Some (Some addr) ->
+  lib_address nw (Some st) (Some e) 0 data [] = Some addr.
+Proof. exact address_by_name_is_standard_pf. Qed.
+
+Theorem address_p2tr_of_output_key_frozen : forall nw sn q wv,
+  In (nw, sn) (combine all_networks spec_networks) ->
+  length q = 32%nat -> hexlike q = false -> (wv = 0 \/ wv = 1) ->
+  lib_address nw (Some StP2tr) (Some EncBech32) wv [] q = frozen_p2tr sn q.
+Proof. exact address_p2tr_of_output_key_frozen_pf. Qed.
+
+(* outside the documented deviating rows (regtest, dogecoin extended keys) the frozen table is the reference clients' table *)
+Theorem frozen_table_is_reference_except_deviations :
+  filter (fun n => negb (sn_is_deviating n)) spec_networks = filter (fun n => negb (sn_is_deviating n)) ref_networks /\
+  table_diff spec_networks ref_networks = documented_deviations.
+Proof. exact (conj spec_is_ref_except_deviations spec_ref_diff). Qed.
+
 (* ---------------------------------------------------------------- non-vacuity *)
 
 Example generator_on_curve : on_curve secp_G = true.
@@ -100,7 +147,31 @@ Proof. reflexivity. Qed.
 Example standard_p2pkh_defined : exists a, spec_address nw_bitcoin StP2pkh EncBase58 [x02; x00] = Some a.
 Proof. eexists. reflexivity. Qed.
 
+Example frozen_has_eleven_networks : length spec_networks = 11%nat /\ length (combine all_networks spec_networks) = 11%nat.
+Proof. split; reflexivity. Qed.
+
+(* Dogecoin Core: PUBKEY_ADDRESS 30 = 0x1e, SCRIPT_ADDRESS 22 = 0x16; the pair (regenerated row, frozen row) exists and
+   P2SH-P2WPKH has a standard form there *)
+Example frozen_dogecoin_p2sh :
+  sn_prefix_address_p2sh sn_dogecoin = [x16] /\ sn_prefix_address sn_dogecoin = [x1e] /\
+  In (nw_dogecoin, sn_dogecoin) (combine all_networks spec_networks) /\
+  exists a, frozen_address sn_dogecoin StP2shP2wpkh EncBase58 G_compressed = Some a.
+Proof. exact frozen_dogecoin_p2sh_w. Qed.
+
+Example standard_p2sh_p2wsh_defined : exists a, spec_address nw_bitcoin StP2shP2wsh EncBase58 [x51] = Some a.
+Proof. eexists. reflexivity. Qed.
+
 (* ---------------------------------------------------------------- refutations *)
+
+(* known: the regtest row carries Bitcoin MAINNET version bytes (00 / 05); Bitcoin Core's regtest chain uses 6f / c4,
+   so the base58 addresses of network 'regtest' are not the addresses of that chain *)
+Example regtest_version_bytes_refuted :
+  sn_prefix_address sn_regtest = [x00] /\ sn_prefix_address ref_regtest = [x6f] /\
+  sn_prefix_address_p2sh sn_regtest = [x05] /\ sn_prefix_address_p2sh ref_regtest = [xc4] /\
+  exists a, frozen_address ref_regtest StP2pkh EncBase58 G_compressed = Some a /\
+            lib_address nw_regtest (Some StP2pkh) (Some EncBase58) 0 G_compressed [] <> Some a.
+Proof. exact regtest_not_core_w. Qed.
+
 
 (* before fixes/C04-1: the all-zero key is accepted with secret 0 (public key "02 00..00") *)
 Example import_range_unfixed_refuted :
@@ -161,3 +232,9 @@ Print Assumptions address_is_standard.
 Print Assumptions public_key_bytes_not_hexlike.
 Print Assumptions address_default_script_type.
 Print Assumptions address_p2tr_of_output_key.
+Print Assumptions network_table_is_spec.
+Print Assumptions network_table_diff_empty.
+Print Assumptions address_is_standard_frozen.
+Print Assumptions address_by_name_is_standard.
+Print Assumptions address_p2tr_of_output_key_frozen.
+Print Assumptions frozen_table_is_reference_except_deviations.
